@@ -44,15 +44,16 @@ class Corners(Part):
     family = "corner09"
     exec_module = "Corner09Exec"
     one_per_process = True
-    KINDS = {"nilmsg": 1, "events_gone": 2, "sub_response": 3, "sub_self": 4, "remote_dead_sub": 5, "concurrent_stops": 6}
+    KINDS = {"nilmsg": 1, "events_gone": 2, "sub_response": 3, "sub_self": 4, "remote_dead_sub": 5, "concurrent_stops": 6, "nil_targets": 7, "send_in_stopped": 8}
     OUT = {"ok": 0, "panic": 1, "diverged": 2, "blocked": 3, "registered": 4}
-    branch_names = {1: "nil_message", 2: "event_stream_gone", 3: "response_mailbox_subscribed", 4: "event_stream_subscribed_to_itself", 5: "dead_subscriber_on_engine_with_remote", 6: "send_after_concurrent_stops"}
+    branch_names = {1: "nil_message", 2: "event_stream_gone", 3: "response_mailbox_subscribed", 4: "event_stream_subscribed_to_itself", 5: "dead_subscriber_on_engine_with_remote", 6: "send_after_concurrent_stops", 7: "nil_pids", 8: "send_while_target_handles_Stopped"}
     crash_obs = {"outcome": "panic", "dead": 0, "events": 0, "note": "the harness process died"}
 
     def generate(self, rng, tier):
         cs = [{"kind": "nilmsg", "k": 0}, {"kind": "events_gone", "k": 0}, {"kind": "sub_response", "k": 3},
               {"kind": "sub_response", "k": 7}, {"kind": "sub_self", "k": 2}, {"kind": "remote_dead_sub", "k": 2},
-              {"kind": "concurrent_stops", "k": 48}, {"kind": "concurrent_stops", "k": 6}]
+              {"kind": "concurrent_stops", "k": 48}, {"kind": "concurrent_stops", "k": 6}, {"kind": "nil_targets", "k": 0},
+              {"kind": "send_in_stopped", "k": 1}, {"kind": "send_in_stopped", "k": 5}]
         return [{"input": c, "class": c["kind"]} for c in cs]
 
     def to_coq(self, inp, obs):
